@@ -63,6 +63,15 @@ CASES = [
        roots='r', expect={'Q': [(1,), (2,), (3,)]}),
   dict(name='override', files={'r/a/x.l': 'X(1);\nY(x) :- X(x);\n'}, main='import a.x.Y;\nX_X(2);\nQ(x) :- Y(x);\n',
        roots='r', error='overridden'),
+  dict(name='redefine_imported_name', files={'r/a/x.l': 'X(1);\nX(2);\n'}, main='import a.x.X;\nX(3);\nQ(x) :- X(x);\n', roots='r',
+       error='overridden'),
+  dict(name='redefine_imported_alias', files={'r/a/x.l': 'X(1);\n'}, main='import a.x.X as G;\nG(x) :- x in [7, 8];\nQ(x) :- G(x);\n',
+       roots='r', error='overridden'),
+  # same-named private predicates with several aggregating rules (auxiliary predicates of the rewrite) in two files
+  dict(name='private_multi_body_aggregates',
+       files={'r/a/stats.l': 'Tot(k) += v :- k == 1, v in [1, 2];\nTot(k) += 10 :- k == 1;\nSa(k, t) :- Tot(k) = t;\n',
+              'r/b/stats.l': 'Tot(k) += v :- k == 1, v in [100];\nTot(k) += 1000 :- k == 1;\nSb(k, t) :- Tot(k) = t;\n'},
+       main='import a.stats.Sa;\nimport b.stats.Sb;\nQ(a, b) :- Sa(1, a), Sb(1, b);\n', roots='r', expect={'Q': [(13, 1100)]}),
   dict(name='missing_file', files={}, main='import no.such.P;\nQ(x) :- P(x);\n', roots='r', error='not found'),
 ]
 
